@@ -49,3 +49,13 @@ Theorem C18_bytes : forall st data addr,
                nth_error (flat st') i = nth_error (flat st) i).
 Proof. exact write_cart_data_bytes. Qed.
 Print Assumptions C18_bytes.
+(* histories read byte by byte: after any sequence of in-range writes, byte i of the image is
+   the byte the LAST write covering i put there, or its old value when no write covered it
+   ([byte_after], Spec/FlatMem.v) *)
+Theorem C18_history_bytes : forall ws st,
+  wf_regions st ->
+  Forall (fun w => 0 <= fst w /\ fst w + zlen (snd w) <= data_end) ws ->
+  exists st', write_many st ws = Ok st' /\ wf_regions st' /\
+    forall i, nth_error (flat st') i = byte_after ws (nth_error (flat st) i) i.
+Proof. exact write_many_bytes. Qed.
+Print Assumptions C18_history_bytes.
